@@ -3,6 +3,7 @@ package poolprops
 import (
 	"fmt"
 	"reflect"
+	"regexp"
 	"runtime"
 	"sort"
 	"strings"
@@ -33,8 +34,14 @@ type c07Op struct {
 
 type c07Case struct {
 	Calls []model.Case `json:"calls"`
-	Ops   []c07Op      `json:"ops"`
+	// Same[i] >= 0: call i uses the schema OBJECT of call Same[i] (its Root is a copy of that call's Root), with a
+	// destination type whose fields are rotated by Rot[i]: one schema value serving several Go types across calls
+	Same []int   `json:"same,omitempty"`
+	Rot  []int   `json:"rot,omitempty"`
+	Ops  []c07Op `json:"ops"`
 }
+
+var addrRe = regexp.MustCompile(`0xc[0-9a-f]{6,}`)
 
 var watchKeys = []string{"k1", "k2", i18n.LangKey}
 
@@ -94,14 +101,16 @@ func observe(res *model.Result) string {
 			keys += fmt.Sprintf(" $first-len=%d", len(f))
 		}
 	}
-	return fmt.Sprintf("nil=%v issues=%v keys=%s dest=%s ctx=%v panic=%v", res.NoIssues(), iss, keys, model.CanonJSON(res.Dest.Elem()), ctx, res.Panic)
+	// messages may print the address of a pointer parameter (Slice(Ptr(T)).Contains(&v)): not part of the observation
+	return addrRe.ReplaceAllString(fmt.Sprintf("nil=%v issues=%v keys=%s dest=%s ctx=%v panic=%v", res.NoIssues(), iss, keys, model.CanonJSON(res.Dest.Elem()), ctx, res.Panic), "0xADDR")
 }
 
 type built struct {
-	schema z.ZogSchema
-	typ    reflect.Type
-	env    *model.Env
-	c      model.Case
+	schema  z.ZogSchema
+	typ     reflect.Type
+	baseTyp reflect.Type
+	env     *model.Env
+	c       model.Case
 }
 
 func (b *built) run() *model.Result {
@@ -187,18 +196,33 @@ func propC07(c c07Case) hh.Verdict {
 	i18n.SetLanguagesErrsMap(map[string]i18n.LangMap{"en": en.Map, "es": es.Map}, "en")
 	calls := make([]*built, len(c.Calls))
 	expected := make([]string, len(c.Calls))
+	shared := false
 	for i, cs := range c.Calls {
 		cs.Root.Number()
-		env := &model.Env{WatchKeys: watchKeys}
-		s, t := model.Build(cs.Root, env)
-		calls[i] = &built{schema: s, typ: t, env: env, c: cs}
-		// expected result: the same call on pristine pools
+		rot := 0
+		if i < len(c.Rot) {
+			rot = c.Rot[i]
+		}
+		// expected result: the same call on pristine pools with a schema object that was never used before
+		fenv := &model.Env{WatchKeys: watchKeys}
+		fs, ft := model.Build(cs.Root, fenv)
+		fresh := &built{schema: fs, typ: model.RetaggedStruct(ft, nil, rot), env: fenv, c: cs}
 		p.ClearPools()
-		res := calls[i].run()
+		res := fresh.run()
 		if res.Panic != nil {
 			return hh.Verdict{Skip: "call-panics-on-pristine-pools"}
 		}
 		expected[i] = observe(res)
+		// the long-lived object used during the history
+		if i < len(c.Same) && c.Same[i] >= 0 && c.Same[i] < i {
+			j := c.Same[i]
+			calls[i] = &built{schema: calls[j].schema, typ: model.RetaggedStruct(calls[j].baseTyp, nil, rot), baseTyp: calls[j].baseTyp, env: calls[j].env, c: cs}
+			shared = true
+		} else {
+			env := &model.Env{WatchKeys: watchKeys}
+			s, t := model.Build(cs.Root, env)
+			calls[i] = &built{schema: s, typ: model.RetaggedStruct(t, nil, rot), baseTyp: t, env: env, c: cs}
+		}
 	}
 	p.ClearPools()
 	pending := map[int]*model.Result{}
@@ -258,6 +282,9 @@ func propC07(c c07Case) hh.Verdict {
 	if dirtied {
 		v.Classes = append(v.Classes, "dirty-injected")
 	}
+	if shared {
+		v.Classes = append(v.Classes, "schema-object-shared-across-calls")
+	}
 	if leakSource {
 		v.Classes = append(v.Classes, "leak-source")
 	}
@@ -293,7 +320,29 @@ func genC07(rt *rapid.T, thorough bool) c07Case {
 			cs.Exec.Formatter = "EXEC-FMT"
 		}
 		c.Calls = append(c.Calls, cs)
+		c.Same = append(c.Same, -1)
+		c.Rot = append(c.Rot, 0)
+		// sometimes a second call that reuses this schema object with another destination type and other data
+		if cs.Root.Kind == model.KStruct && len(c.Calls) < ncalls && rapid.IntRange(0, 2).Draw(rt, "reuse") == 0 {
+			cfg2 := cfg
+			cfg2.Mode = rapid.SampledFrom([]string{"parse", "validate"}).Draw(rt, "mode2")
+			g := model.NewGen(rt, cfg2)
+			twin := model.RoundTrip(cs)
+			twin.Exec.Mode = cfg2.Mode
+			seedWitnesses(g, twin.Root)
+			typed := g.GenTyped(twin.Root)
+			if cfg2.Mode == "parse" {
+				twin.Input, _ = g.Render(twin.Root, typed, "root")
+			} else {
+				twin.Input = typed
+			}
+			c.Calls = append(c.Calls, twin)
+			c.Same = append(c.Same, len(c.Calls)-2)
+			c.Rot = append(c.Rot, rapid.IntRange(1, 3).Draw(rt, "rot"))
+			i++
+		}
 	}
+	ncalls = len(c.Calls)
 	nops := rapid.IntRange(4, 20).Draw(rt, "nops")
 	if thorough {
 		nops = rapid.IntRange(6, 40).Draw(rt, "nopsT")
@@ -315,11 +364,29 @@ func genC07(rt *rapid.T, thorough bool) c07Case {
 	return c
 }
 
+// seedWitnesses gives a copied schema tree plausible witnesses (values are drawn around them).
+func seedWitnesses(g *model.Gen, n *model.Node) {
+	n.Walk(func(x *model.Node) {
+		switch {
+		case model.IsPrimitive(x.Kind):
+			g.SetWitness(x, g.Witness(x.Kind))
+		case x.Kind == model.KSlice:
+			g.SetWitness(x, model.Int(2))
+		case x.Kind == model.KCustom:
+			if x.CustomT == "string" {
+				g.SetWitness(x, model.Str("cw"))
+			} else {
+				g.SetWitness(x, model.Int(3))
+			}
+		}
+	})
+}
+
 func TestC07(t *testing.T) {
 	h := hh.Start(t, "C07",
 		"cases = histories over a pool of 3-8 (thorough 4-14) generated calls (schema, data, mode, WithCtxValue sets incl. the i18n language key, WithIssueFormatter), executed in random order with interleaved actions: collect an earlier result (Collect per issue / CollectList / CollectMap / Sanitize*AndCollect), force GC (empties the pools), inject dirty recycled objects of every reachable shape into one or all of the seven pools, run a call whose user callback panics (deferred releases run mid-execution); i18n (en, es) installed as global formatter; non-trivial = a call executed after an earlier call that set context values / a formatter / produced issues, after a panicking call, or after a dirty injection; distinct = FNV-1a of the case JSON",
 		"reference = the same call on freshly cleared pools (computed first); after every call the complete observable result - every issue field (code, path, type, message, params deep, value, error text), $first / key set, destination, and the ctx.Get values seen by its callbacks - must equal the reference",
 		"dirty objects are limited to states reachable through zog's own API (PathBuilder element 0 stays empty); collected issues are never inspected afterwards")
 	defer h.Finish()
-	hh.Sub(h, "histories", h.N(3000, 15000), func(rt *rapid.T) c07Case { return genC07(rt, h.Thorough()) }, propC07)
+	hh.Sub(h, "histories", h.N(3000, 4000), func(rt *rapid.T) c07Case { return genC07(rt, h.Thorough()) }, propC07)
 }
